@@ -165,13 +165,21 @@ def canon_calls(calls, base):
 
 
 def classify_calls(calls, ret):
-    """Model vocabulary for what WriteTo did, from the traced calls: (res, calls-within-the-model)."""
+    """Model vocabulary for what WriteTo did, from the traced calls and how it returned."""
+    fail = [c for c in calls if c[3] != '0']
+    if not fail:
+        return 'ok' if ret == 'nil' else 'ret-' + ret
+    if fail[0][2] == 'rwx':                      # RWX refused -> mwrite_prot.go writeTo
+        return 'ok-fallback' if (len(fail) == 1 and ret == 'nil') else 'panic-fallback'
+    return 'panic-rx'
+
+
+def pre_refusal(calls):
+    """the calls up to and including the first refused one (what follows is the fall-back)"""
     for i, c in enumerate(calls):
         if c[3] != '0':
-            if c[2] == 'rwx':
-                return 'fallback', calls[:i + 1]      # everything after is mwrite_prot.go
-            return 'panic-rx', calls[:i + 1]
-    return ('ok' if ret == 'nil' else 'ret-' + ret), calls
+            return calls[:i + 1]
+    return calls
 
 
 # ------------------------------------------------------------------ generators
@@ -227,6 +235,18 @@ def gen_scratch(tier, rng):
         if off + n > k * 4096:
             n = max(0, k * 4096 - off)
         add(off, n, perms)
+    # W^X lane: the kernel refuses write+execute (seccomp filter in the probe) -> WriteTo's fall-back (mwrite_prot.go)
+    nw = 120 if not thorough else 3000
+    for off, n in ((4090, 13), (4083, 13), (4084, 13), (100, 13), (4096, 13), (4090, 0), (4096, 0), (4095, 2), (0, 8192), (4000, 5000)):
+        ops.append(f'c14.writewx {off} {rand_bytes(rng, n)} x,x,x,x')
+    for _ in range(nw):
+        k = 2 + rng.below(5)
+        perms = [('x' if rng.below(8) else rng.choice(['r', 'd'])) for _ in range(k)]
+        n = rng.below(65) if rng.below(4) else rng.below(6000)
+        off = 4096 * (1 + rng.below(k - 1)) - rng.below(70) + rng.below(4)
+        if off + n > k * 4096:
+            n = max(0, k * 4096 - off)
+        ops.append(f'c14.writewx {off} {rand_bytes(rng, n)} {",".join(perms)}')
     # malformed lane: an unmapped page inside (or next to) the range -> mprotect refused -> fall-back path
     nm = 40 if not thorough else 400
     for _ in range(nm):
@@ -261,7 +281,8 @@ def touched_pages(off, n):
 
 def oracle_write(op, obs, calls, base):
     """Returns None or a description of how the real WriteTo broke C14 on this op."""
-    _, off, hx, perms = op.split()
+    kind, off, hx, perms = op.split()
+    wx = kind == 'c14.writewx'
     off = int(off)
     n = 0 if hx == '-' else len(hx) // 2
     perms = perms.split(',')
@@ -281,11 +302,15 @@ def oracle_write(op, obs, calls, base):
     malformed = any(perms[i] == 'u' for i in tp) or (n == 0 and perms[off // 4096] == 'u')
     # x never dropped; for a write into an unmapped page (caller error) only up to the refused mprotect — what follows
     # is the fall-back of mwrite_prot.go, which is outside the model and is known to go through rw-
-    for a, ln, prot, res in (classify_calls(calls, kv['ret'])[1] if malformed else calls):
+    dropped = None
+    for a, ln, prot, res in (pre_refusal(calls) if malformed else calls):
         if 'x' not in prot:
-            return f'mprotect({rel(a, base)}, {ln}, {prot}) drops the execute bit'
+            dropped = f'mprotect({rel(a, base)}, {ln}, {prot}) drops the execute bit'
+            break
+    if dropped and not wx:
+        return dropped
     if malformed:
-        return None      # only frame and x-never-dropped (inside the model) are demanded
+        return None      # caller error (the write cannot succeed): only frame and x-never-dropped before the refusal are demanded
     if kv['ret'] != 'nil':
         return f'WriteTo did not return normally: {kv["ret"]}'
     if int(kv['wrong']) != 0:
@@ -294,67 +319,77 @@ def oracle_write(op, obs, calls, base):
     seen_rwx, last = set(), {}
     for a, ln, prot, res in calls:
         d = a - base
-        if d % 4096 or ln != 4096:
-            return f'mprotect({rel(a, base)}, {ln}) is not exactly one page'
-        pg = d // 4096
-        if pg not in allowed:
-            return f'mprotect on page {pg} which holds no byte of the write (pages {sorted(allowed)})'
-        if res != '0':
+        if d % 4096 or ln % 4096 or ln == 0:
+            return f'mprotect({rel(a, base)}, {ln}) is not a whole number of pages'
+        pgs = list(range(d // 4096, (d + ln) // 4096))      # one call may span several pages: the property does not say how
+        for pg in pgs:
+            if pg not in allowed:
+                return f'mprotect on page {pg} which holds no byte of the write (pages {sorted(allowed)})'
+        if res != '0' and not (wx and prot == 'rwx' and res == 'EACCES'):
             return f'mprotect({rel(a, base)}) failed: {res}'
-        if prot == 'rwx':
-            seen_rwx.add(pg)
-        last[pg] = prot
+        for pg in pgs:
+            if res == '0' and 'w' in prot:
+                seen_rwx.add(pg)
+            if res == '0':
+                last[pg] = prot
     if not tp <= seen_rwx:
         return f'pages {sorted(tp - seen_rwx)} hold written bytes but were never made writable'
     final = kv['perms'].split(',')
     for i, p0 in enumerate(perms):
-        want = 'x' if i in last else p0
-        if final[i] != want:
-            return f'page {i} ends as {final[i]}, wanted {want} (initial {p0}, {"touched" if i in last else "untouched"})'
-        if i in last and last[i] != 'rx':
-            return f'last mprotect of page {i} is {last[i]}, not rx'
+        if i not in last:
+            if final[i] != p0:
+                return f'page {i} was not touched but ends as {final[i]} (initial {p0})'
+        elif final[i] not in ('x', p0) or (final[i] in ('w', 'd') and p0 == 'x'):
+            # r-x afterwards (what goom does), or the protection it had before; never newly writable / no longer executable
+            return f'page {i} ends as {final[i]} (initial {p0}): left writable or not executable'
+    if dropped:
+        return 'KNOWN:fallback-drops-x:' + dropped       # W^X lane: everything else held; the fall-back went through rw-
     return None
 
 
 # ------------------------------------------------------------------ run
 
 def execute(ops, tag='c14'):
-    """Run ops through the real code (under strace) and the model. Returns (impl lines, model lines, raw obs, calls, base, err)."""
+    """Run ops through the real code (under strace) and the model. Returns (impl lines, model lines, raw obs, calls, bases, err)."""
     ops_path = os.path.join(C.BUILD, f'{tag}.ops')
     open(ops_path, 'w').write('\n'.join(ops) + '\n')
     bins = build_probes()
-    outp = os.path.join(C.BUILD, f'{tag}.mem.impl')
-    rc, log, st = run_strace(bins['mem'], 'TestVerifC14', ops_path, outp, tag + '.mem')
-    raw = C.read_indexed(outp, len(ops))
-    if rc != 0 and not any(raw):
-        raise C.Infra(f'probe c14-mem failed rc={rc}:\n{log[-2000:]}')
-    hdr = dict(p.split('=') for p in open(outp + '.hdr').read().split()) if os.path.exists(outp + '.hdr') else {}
-    base = int(hdr.get('base', '0'), 16)
-    per = parse_strace(st)
     impl = [None] * len(ops)
     calls = [None] * len(ops)
-    for i, op in enumerate(ops):
-        if raw[i] is None:
-            continue
-        if op.startswith('c14.write'):
-            cs = per.get(i)
-            calls[i] = cs
-            cmp_part, _, extra = raw[i].partition(' | ')
-            ret = dict(p.split('=', 1) for p in extra.split() if '=' in p).get('ret', '?')
-            res, within = classify_calls(cs or [], ret)
-            impl[i] = f'res={res} calls={canon_calls(within, base)} {cmp_part}'
-        else:
-            impl[i] = raw[i]
+    raw = [None] * len(ops)
+    bases = [0] * len(ops)
+    logs = ''
+    lanes = [('TestVerifC14', 'mem', lambda o: o.startswith('c14.write ') or o.startswith('c14.ps '))]
+    if any(o.startswith('c14.writewx ') for o in ops):
+        lanes.append(('TestVerifC14WX', 'memwx', lambda o: o.startswith('c14.writewx ')))
+    for test, sub, mine in lanes:
+        outp = os.path.join(C.BUILD, f'{tag}.{sub}.impl')
+        rc, log, st = run_strace(bins['mem'], test, ops_path, outp, f'{tag}.{sub}')
+        r = C.read_indexed(outp, len(ops))
+        if rc != 0 and not any(r):
+            raise C.Infra(f'probe c14-mem {test} failed rc={rc}:\n{log[-2000:]}')
+        if rc != 0:
+            logs += log
+        hdr = dict(p.split('=') for p in open(outp + '.hdr').read().split()) if os.path.exists(outp + '.hdr') else {}
+        base = int(hdr.get('base', '0'), 16)
+        per = parse_strace(st)
+        for i, op in enumerate(ops):
+            if not mine(op) or r[i] is None:
+                continue
+            raw[i], bases[i] = r[i], base
+            if op.startswith('c14.write'):
+                cs = per.get(i)
+                calls[i] = cs
+                cmp_part, _, extra = r[i].partition(' | ')
+                ret = dict(p.split('=', 1) for p in extra.split() if '=' in p).get('ret', '?')
+                impl[i] = f'res={classify_calls(cs or [], ret)} calls={canon_calls(cs or [], base)} {cmp_part}'
+            else:
+                impl[i] = r[i]
     exe, err = C.build_driver()
     if exe is None:
-        return impl, None, raw, calls, base, err
+        return impl, None, raw, calls, bases, err
     model = C.run_driver(exe, ops_path, os.path.join(C.BUILD, f'{tag}.model'))
-    # outside the model: after a refused RWX mprotect only the outcome and the calls up to the refusal are compared
-    for i in range(len(ops)):
-        for lines in (impl, model):
-            if lines[i] and lines[i].startswith('res=fallback '):
-                lines[i] = ' '.join(lines[i].split()[:2])
-    return impl, model, raw, calls, base, (log if rc != 0 else '')
+    return impl, model, raw, calls, bases, logs
 
 
 def run_text_survey(bins):
@@ -514,8 +549,8 @@ def execute_text(ops, bins, tag='c14.text'):
                 impl[i] = 'oracle-only'
             elif cmp_part.startswith('apply='):
                 pbase = int(kv['pbase'], 16)
-                r1, c1 = classify_calls(ph[1], 'nil')
-                r2, c2 = classify_calls(ph[2], 'nil')
+                r1, c1 = classify_calls(ph[1], 'nil'), ph[1]
+                r2, c2 = classify_calls(ph[2], 'nil'), ph[2]
                 t = cmp_part.split()
                 impl[i] = f'apply={r1} {t[1]} calls={canon_calls(c1, pbase)} unpatch={r2} {t[3]} calls2={canon_calls(c2, pbase)} {t[4]}'
             else:
@@ -554,12 +589,18 @@ def run(tier):
         if op.startswith('c14.write'):
             if raw[i] is None and crashed:
                 continue        # not run: the probe died at an earlier op (reported there)
-            why = oracle_write(op, raw[i], calls[i], base)
+            why = oracle_write(op, raw[i], calls[i], base[i])
             if why:
                 bad.append((i, op, why))
             crashed = crashed or raw[i] is None
+    known = [b for b in bad if b[2].startswith('KNOWN:')]
+    bad = [b for b in bad if not b[2].startswith('KNOWN:')]
+    for i, op, why in known[:1]:
+        _, key, text = why.split(':', 2)
+        out.violation(f'{op[:120]}: {text}', {'kind': 'impl-oracle', 'ops': [op], 'observed': raw[i], 'calls': canon_calls(calls[i] or [], base[i]),
+                                              'why': text, 'how': 'python3 check.py C14 --replay <this file>'}, key=key)
     for i, op, why in bad[:3]:
-        out.violation(f'{op[:120]}: {why}', {'kind': 'impl-oracle', 'ops': [op], 'observed': raw[i], 'calls': canon_calls(calls[i] or [], base),
+        out.violation(f'{op[:120]}: {why}', {'kind': 'impl-oracle', 'ops': [op], 'observed': raw[i], 'calls': canon_calls(calls[i] or [], base[i]),
                                              'why': why, 'how': 'python3 check.py C14 --replay <this file>'})
     # text lane: survey of every function, then the real Patch/Apply/Unpatch
     bins = build_probes()
@@ -669,12 +710,12 @@ def run(tier):
 def replay(body):
     ops = body.get('ops', [])
     rc = 0
-    scratch = [o for o in ops if o.startswith('c14.write') or o.startswith('c14.ps')]
+    scratch = [o for o in ops if o.startswith('c14.write') or o.startswith('c14.ps ')]
     text = [o for o in ops if o not in scratch]
     if scratch:
         impl, model, raw, calls, base, _ = execute(scratch, tag='c14-replay')
         for i, op in enumerate(scratch):
-            why = oracle_write(op, raw[i], calls[i], base) if op.startswith('c14.write') else None
+            why = oracle_write(op, raw[i], calls[i], base[i]) if op.startswith('c14.write') else None
             print(f'{op[:200]}\n  impl : {impl[i]}\n  model: {model[i] if model else None}\n  oracle: {why or "ok"}')
             if why or (model and impl[i] != model[i]):
                 rc = 1
